@@ -99,6 +99,7 @@ fn main() {
                 dump: arg_after(&args, "--dump"),
                 no_evidence: args.iter().any(|a| a == "--no-evidence"),
                 shrink_budget_s: arg_after(&args, "--shrink-budget").and_then(|s| s.parse().ok()).unwrap_or(60),
+                known_path: arg_after(&args, "--known"),
             };
             println!("VERIF_SEED={} property={} tier={}", a.seed, a.prop, a.tier.name());
             let o = supervisor::run(&a);
